@@ -174,6 +174,18 @@ def c07_extra(rep, rnd, first_id):
         bad = dict(v, vals=v["vals"][:i] + [dict(v["vals"][i], items=items)] + v["vals"][i + 1:])
         out.append(codec.value_record(first_id + len(out), scn, v, rnd.random() < 0.5))
         out.append(codec.value_record(first_id + len(out), scn, bad, rnd.random() < 0.5, tag="wrong-count"))
+    # identifier resolution: a field named like a constant takes precedence in a later length expression
+    for _ in range(400 if rep.tier == "thorough" else 60):
+        mode = codec.gen_mode(rnd)
+        kval = rnd.randrange(0, 4)
+        elem = rnd.choice([A.t_int("uint8"), A.t_int("uint16"), A.t_char(), A.t_int("int24"), A.t_wchar()])
+        e = rnd.choice([A.e_id("K"), A.e_bin("+", A.e_bin("&", A.e_id("K"), A.e_lit(3)), A.e_lit(1)), A.e_bin("*", A.e_id("J"), A.e_bin("&", A.e_id("K"), A.e_lit(1)))])
+        fields = [A.field("K", A.t_int("uint8")), A.field("d", A.t_arr(elem, A.L_expr(A.e_bin("&", e, A.e_lit(7))))), A.field("t", A.t_int("uint8"))]
+        t = A.t_struct("SH", fields)
+        consts = {"K": kval, "J": 2}
+        scn = {"type": t, "mode": mode, "consts": consts, "defs": A.render(t, consts)}
+        start = codec.start_for(rnd, scn)
+        out.append(codec.parse_record(first_id + len(out), scn, codec.gen_input(rnd, start, maxlen=40), start, rnd.random() < 0.5, both=True))
     return out
 
 
